@@ -222,6 +222,44 @@ def ground_counts(ctx):
             a = make_invariants(L, c, kinds="NP")
             if not np.allclose(a[: L + 1], make_invariants(L, c, kinds="N")) or not np.allclose(a[L + 1:], make_invariants(L, c, kinds="P"), equal_nan=True):
                 bad.append({"L": L, "order": "NP is not N followed by P"})
+    # power spectrum: L+1 values for both coefficient layouts, the compact (real-function) layout agreeing with the full layout of the same function; and the
+    # invariants are homogeneous of degree one (no absolute magnitude is special): inv(k c) == k inv(c)
+    from chmpy.shape.sht import SHT as _SHT
+    from chmpy.shape.shape_descriptors import expand_coeffs_to_full as _full
+    bad_ps, bad_h = [], []
+    for L in range(0, 13):
+        try:
+            sht = _SHT(L)
+            sht.nplm()
+        except Exception as e:  # noqa -- an exception of the code under test on a valid argument is a failing input, not a checker error
+            bad_ps.append({"l_max": L, "raised": f"SHT({L}): {e!r}"[:160]})
+            continue
+        cr = rng.normal(size=sht.nplm()) + 1j * rng.normal(size=sht.nplm())
+        cr[: L + 1] = cr[: L + 1].real
+        cf = _full(L, cr)
+        try:
+            a_, b_ = np.asarray(sht.power_spectrum(cr)), np.asarray(sht.power_spectrum(cf))
+        except Exception as e:  # noqa
+            bad_ps.append({"l_max": L, "raised": repr(e)[:160]})
+            continue
+        if len(a_) != L + 1 or len(b_) != L + 1 or not np.allclose(a_, b_, rtol=1e-10, atol=0):
+            bad_ps.append({"l_max": L, "entries_compact_layout": len(a_), "entries_full_layout": len(b_), "expected": L + 1,
+                           "max_difference": float(np.abs(a_ - b_).max()) if len(a_) == len(b_) else None})
+        try:
+            ref = make_invariants(L, cf, kinds="NP")
+            scaled = {kf: make_invariants(L, kf * cf, kinds="NP") / kf for kf in (1e-14, 1e9)}
+        except Exception as e:  # noqa
+            bad_h.append({"l_max": L, "raised": repr(e)[:160]})
+            continue
+        for kf in (1e-14, 1e9):
+            got = scaled[kf]
+            err = float(np.nanmax(np.abs(got - ref)) / max(1e-300, float(np.nanmax(np.abs(ref)))))
+            if not err <= 1e-5:
+                bad_h.append({"l_max": L, "scaled_by": kf, "relative_change": err})
+    ctx.ground("sht.SHT.power_spectrum/count_and_layouts", not bad_ps, clause="for l_max = 0..12 the power spectrum has l_max+1 entries and is the same for the compact layout of a real function "
+               "and the full layout of the same function", detail=bad_ps[:3], witness=bad_ps[:2], fn=ctx.fn("chmpy.shape.sht", "SHT.power_spectrum"))
+    ctx.ground("shape_descriptors.make_invariants/homogeneous", not bad_h, clause="for l_max = 0..12: make_invariants(k c) == k make_invariants(c) for k = 1e-14 and 1e9 (N and P; no absolute threshold)",
+               detail=bad_h[:3], witness=bad_h[:2])
     ctx.ground("shape_descriptors.make_invariants/count_and_order", not bad, clause="for l_max = 0..12: N gives l_max+1 values, P the number of admissible (l,l1,l2) triples, NP = N then P",
                detail=bad[:4], witness=bad[:2])
 
